@@ -110,8 +110,8 @@ func positions(toks []sqltok.Token) userPos {
 		}
 		depthAt[i] = depth
 		// a label right after AS is never a keyword, whatever it is spelled like
-		if depth == 0 && isWord(t, "select") && !(i > 0 && isWord(toks[i-1], "as")) {
-			sel = i
+		if sel < 0 && depth == 0 && isWord(t, "select") && !(i > 0 && isWord(toks[i-1], "as")) {
+			sel = i // the outermost SELECT: CTE bodies are parenthesised
 		}
 	}
 	if sel < 0 {
